@@ -55,6 +55,10 @@ def make_boolarg_case(idx, seed, logics=("QF_UF", "QF_UFLRA", "QF_UF", "QF_UFLIA
     rng = random.Random(f"engine-boolarg-{seed}-{idx}")
     logic = logics[idx % len(logics)]
     p = gen.Problem(logic, rng, nbool=3, nnum=3)
+    if not p.boolargs:
+        p.boolargs = True
+        p.funs += [("h", ["Bool"], p.S), ("q", ["Bool", p.S], "Bool")]
+        p.decls += [f"(declare-fun h (Bool) {p.S})", f"(declare-fun q (Bool {p.S}) Bool)"]
     p.pb = 0.4
     asserts = [p.fla(rng.randint(1, 3)) for _ in range(rng.randint(6, 14))]
     opts = [] if idx % 4 else [":random-seed %d" % rng.randint(1, 1000)]
